@@ -48,7 +48,7 @@ def run(F, R):
     for _k, _v in _r.items():
         if _v == 'add':
             e3_capacity(F, R, M, _k, rule='O8', rule1='O8')
-    eps = queue_entry_points(F, M)
+    eps = queue_api_entry_points(F, M)
     R.count('entry_points', len(eps))
     idx_writer_fns = []
     idx_fields = {}
